@@ -5,7 +5,7 @@ import vlib
 
 ALLVALS = {"etag", "lm", "both", "none", "weak"}
 BASE = dict(NRes=2, NClients=3, Forms="<- AllForms", FormStorable="<- StorableTab", FormLife="<- LifeTab", ValKinds=ALLVALS,
-            DefaultAge=3, IgnoreCC=False, ForceDefault=False, Retry416=False, StoreMayRefuse=False, MaxVer=3, MaxNow=12, MaxX=8,
+            DefaultAge=3, IgnoreCC=False, ForceDefault=False, Retry416=False, StoreMayRefuse=False, Unlinks=False, MaxVer=3, MaxNow=12, MaxX=8,
             Kinds={"get", "range", "head"}, Conds={"none", "inm", "ims", "bad"})
 
 
@@ -56,6 +56,9 @@ def refusal_families():
     # before a store); the store that finds it full cannot evict (every candidate shares the storing key's lock) and is refused
     f.append(fam("px_memory_full", backend="memory", depth=30, genforms="SmallForms", NRes=2, NClients=2, Kinds={"get"}, Conds={"none"},
                  genvals={"etag"}, StoreMayRefuse=True, MaxX=10, limit=300, shards=1))
+    # the data file of an entry vanishes behind the cache's back (file backend): lookups fail, clients are served by the origin
+    f.append(fam("px_file_lostfile", backend="file", depth=30, genforms="SmallForms", NRes=1, NClients=2, Kinds={"get", "range", "head"},
+                 Conds={"none", "inm"}, genvals={"etag", "lm"}, Unlinks=True, MaxX=12))
     return f
 
 
